@@ -91,6 +91,21 @@ func (v ValSpec) Bytes() []byte {
 		}
 		_ = pk
 		return refESLEncode(ls)
+	case "tailemptydb":
+		// N hashes in one list, followed by a list that holds no signature at all: exactly one 28-byte list header
+		// (what removing the last certificate of a list leaves behind). N = 0: nothing but that header.
+		var ls []RefList
+		if v.N > 0 {
+			l := RefList{Type: wireSHA256, Size: 48}
+			for i := 0; i < v.N; i++ {
+				var o [16]byte
+				o[2] = byte(v.Tag)
+				l.Sigs = append(l.Sigs, RefSig{Owner: o, Data: refHashDBEntry(byte(v.Tag), i)})
+			}
+			ls = append(ls, l)
+		}
+		ls = append(ls, RefList{Type: wireX509, Size: 0})
+		return refESLEncode(ls)
 	case "bool":
 		return []byte{byte(v.N)}
 	case "str":
